@@ -620,7 +620,7 @@ func GetRecords(name string, typ recordtype.Type) []string {
 
 	ctx := storage.GetReadOnlyContext()
 	tokenID := []byte(tokenIDFromName(ctx, name))
-	_ = getFragmentedNameState(ctx, tokenID, fragments) // ensure not expired
+	_ = getFragmentedNameState(ctx, tokenID, nil) // ensure not expired
 	return getRecordsByType(ctx, tokenID, name, typ)
 }
 
@@ -671,7 +671,7 @@ func GetAllRecords(name string) iterator.Iterator {
 	}
 
 	ctx := storage.GetReadOnlyContext()
-	return getAllRecords(ctx, name, fragments)
+	return getAllRecords(ctx, name)
 }
 
 // updateBalance updates account's balance and account's tokens.
@@ -1084,7 +1084,7 @@ func resolve(ctx storage.Context, res []string, name string, typ recordtype.Type
 	if name[len(name)-1] == '.' {
 		name = name[:len(name)-1]
 	}
-	records := getAllRecords(ctx, name, nil)
+	records := getAllRecords(ctx, name)
 	cname := ""
 	for iterator.Next(records) {
 		r := iterator.Value(records).(RecordState)
@@ -1103,11 +1103,10 @@ func resolve(ctx storage.Context, res []string, name string, typ recordtype.Type
 }
 
 // getAllRecords returns iterator over the set of records corresponded with the
-// specified name. Optional fragments parameter allows to pass pre-calculated
-// elements of the domain name path: if empty, splits name on its own.
-func getAllRecords(ctx storage.Context, name string, fragments []string) iterator.Iterator {
+// specified name.
+func getAllRecords(ctx storage.Context, name string) iterator.Iterator {
 	tokenID := []byte(tokenIDFromName(ctx, name))
-	_ = getFragmentedNameState(ctx, tokenID, fragments) // ensure not expired
+	_ = getFragmentedNameState(ctx, tokenID, nil) // ensure not expired
 	recordsKey := getRecordsKey(tokenID, name)
 	return storage.Find(ctx, recordsKey, storage.ValuesOnly|storage.DeserializeValues)
 }
